@@ -100,8 +100,8 @@ def worker_init(scratch_root):
     _state["wdir"] = wdir
 
 
-def ts_string(t, off):
-    dt = (BASE + timedelta(seconds=t)).astimezone(timezone(timedelta(seconds=off)))
+def ts_string(t, off, us=0):
+    dt = (BASE + timedelta(seconds=t, microseconds=us)).astimezone(timezone(timedelta(seconds=off)))
     return dt.isoformat(sep=" ")
 
 
